@@ -101,8 +101,14 @@ def gen_case(rng, idx):
             for i, row in enumerate(status):
                 row[t] = (not row[t - 1]) if i == j else row[t - 1]
     second = [[bool(rng.random() < 0.5) for _ in range(n)] for _ in ends] if (ends and rng.random() < 0.5) else None
+    api = str(rng.choice(["all", "each"]))
+    if api == "each" and len(ends) >= 2 and n > 1 and rng.random() < 0.35:
+        # only some breakers are operated; the others keep the single value they were built with (closed) - D51
+        keep = set(int(i) for i in rng.choice(len(ends), size=int(rng.integers(1, len(ends))), replace=False))
+        status = [row if i in keep else [True] for i, row in enumerate(status)]
+        second = None
     return {"idx": idx, "swbs": swbs, "ends": [list(e) for e in ends], "status": status, "n": n, "shape": shape, "second": second,
-            "api": str(rng.choice(["all", "each"])), "dtype": str(rng.choice(["bool", "int", "float"], p=[0.5, 0.25, 0.25]))}
+            "api": api, "dtype": str(rng.choice(["bool", "int", "float"], p=[0.5, 0.25, 0.25]))}
 
 
 def verify(ctx, sys_, swbs, ends, status, n, where, model, label):
@@ -120,7 +126,7 @@ def verify(ctx, sys_, swbs, ends, status, n, where, model, label):
         return False
     for t in range(n_eff):
         period = max(i for i, s in enumerate(idx) if s <= t)
-        closed = [row[t] for row in status] if ends else []
+        closed = [row[t] if len(row) > 1 else row[0] for row in status] if ends else []
         want = union_find(swbs, ends, closed)
         got = partition_of(maps[period])
         if got != want:
@@ -168,14 +174,16 @@ def run_case(ctx, case, model=True):
         ctx.fail("predicate", tag, f"constructor (all breakers closed) raised {type(e).__name__}: {e}", where)
         return False
     dt = {"bool": bool, "int": int, "float": float}[case.get("dtype", "bool")]
-    table = np.array(status, dtype=dt).T.reshape(n, len(ends)) if ends else None
+    partial = any(len(row) != n for row in status)
+    ctx.count("breakers_operated", "some" if partial else "all")
+    table = np.array(status, dtype=dt).T.reshape(n, len(ends)) if (ends and not partial) else None
     rows = [np.array(row, dtype=dt) for row in status]
 
     def assign():
         if case["api"] == "all":
             sys_.set_bus_tie_status_all(table)
         else:
-            sys_.set_bus_tie_status([(i + 1, r) for i, r in enumerate(rows)])
+            sys_.set_bus_tie_status([(i + 1, r) for i, r in enumerate(rows) if len(r) == n or not partial])
     if ends:
         ctx.count("status_dtype", case.get("dtype", "bool"))
         try:
